@@ -241,6 +241,7 @@ SHEETS = {
     'two_ft': [(3, False, 2.0, [_sframe(4)]), (2, True, 0.0, [_sframe(5), _sframe(6), _sframe(7)])],
     'noframes': [(5, True, 0.0, [])],
     'last': [(63, True, 8.0, [_sframe(3)])],
+    'all64': [(n, n % 2 == 0, 0.5 + n, [_sframe(n % 5)]) for n in range(64)],     # the format's maximum number of sequences
 }
 
 ALTS_QUICK = {
@@ -763,6 +764,30 @@ def check_case(acc: core.Acc, dev: dict) -> None:
     except Exception as exc:  # noqa: BLE001
         if not load_errors:
             acc.fail('pixel_load_error', case, f'indexing a read-back frame raised {type(exc).__name__}: {exc}',
+                     exc=type(exc).__name__, cube=cube, savever=bool(cfg['savever']))
+
+    # -- a rejected copy_from() on a lazily loaded frame (wrong buffer size) leaves the frame's file content intact
+    if not load_errors and read_keys & made_keys:
+        nk0 = min(read_keys & made_keys, key=lambda k: (k[2], str(k)))
+        try:
+            rd_rej = VTF.read(io.BytesIO(data1))
+            fr0 = get_frame(rd_rej, nk0)
+            rejected = False
+            try:
+                fr0.copy_from(b'\x01\x02\x03', ImageFormats.RGBA8888)
+            except Exception:  # noqa: BLE001 - the rejection itself; which exception is not this property's business
+                rejected = True
+            if rejected:
+                got = frame_bytes(fr0)
+                base = frame_bytes(get_frame(rd, nk0))      # the same frame of the undisturbed read (compared with the model above)
+                if got != base:
+                    pos = next(i for i in range(min(len(got), len(base))) if got[i] != base[i]) if len(got) == len(base) else -1
+                    acc.fail('pixels_after_rejected_update', case, f'{fmt} frame {nk0}: after a copy_from() call that raised, the lazily '
+                             f'loaded frame no longer yields the file content (first differing byte {pos}: {base[pos:pos + 4].hex()} -> {got[pos:pos + 4].hex()})', fmt=fmt)
+            else:
+                acc.count('short_copy_from_accepted')
+        except Exception as exc:  # noqa: BLE001
+            acc.fail('pixel_load_error', case, f'loading a frame after a rejected copy_from() raised {type(exc).__name__}: {exc}',
                      exc=type(exc).__name__, cube=cube, savever=bool(cfg['savever']))
 
     # -- storing again changes nothing
